@@ -26,7 +26,13 @@ func TestMain(m *testing.M) {
 
 // checkRequest serves one request on the table and compares with the model. Returns "" if fine.
 func checkRequest(t *rh.Table, method, path string) (msg string, tr rm.Trace) {
-	got, pan := t.Serve(method, path)
+	return checkRequestRaw(t, method, path, 0)
+}
+
+// checkRequestRaw also gives the request an alternative (percent-encoded) spelling of the path in URL.RawPath, the way
+// net/http does for a client that writes /%61 for /a; dispatch is defined on the decoded path.
+func checkRequestRaw(t *rh.Table, method, path string, rawMask uint64) (msg string, tr rm.Trace) {
+	got, pan := t.ServeRaw(method, path, rawMask)
 	if pan != nil {
 		return fmt.Sprintf("ServeHTTP panicked: %v", pan), tr
 	}
@@ -326,7 +332,12 @@ func TestGenerated(t *testing.T) {
 		for i := 0; i < nreq; i++ {
 			m := rapid.SampledFrom(reqMethods).Draw(t, "reqmethod")
 			p := genRequestPath(routes).Draw(t, "reqpath")
-			msg, tr := checkRequest(tb, m, p)
+			var rawMask uint64
+			if rapid.IntRange(0, 3).Draw(t, "withRawPath") == 0 {
+				rawMask = rapid.Uint64().Draw(t, "rawMask")
+				ev.Label("req:with_RawPath_spelling")
+			}
+			msg, tr := checkRequestRaw(tb, m, p, rawMask)
 			if msg != "" {
 				t.Fatalf("table %s request %q %q: %s", rh.RenderTable(routes), m, p, msg)
 			}
